@@ -375,7 +375,7 @@ fn gen_prim(rng: &mut Rng, action: bool, last: bool) -> Value {
                     "arg": b(pick_bytes(rng, &[b"f", b"d", b"l", b"p", b"s", b"b", b"c"], &[b"x", b"ff", b"", b"F", b"dd"]))}),
         7 | 8 => json!({"k": "prim", "prim": "-perm", "kind": "test", "okind": "perm",
                     "arg": b(pick_bytes(rng, &[b"644", b"-u+r", b"/022", b"u=rwx,g=rx,o=", b"-4000", b"a+x", b"ug=o", b"7777"],
-                                        &[b"8", b"77777", b"u+7", b"u", b"a", b",u+r", b"u+r,", b"-", b"/", b"0644x", b"rwx", b"u+rwz"]))}),
+                                        &[b"8", b"77777", b"u+7", b"u", b"a", b",u+r", b"u+r,", b"-", b"/", b"0644x", b"rwx", b"u+rwz", b"7 ", b" 7", b"7\t", b"64 4", b"-7 ", b"/ 7"]))}),
         9 => json!({"k": "prim", "prim": "-regextype", "kind": "test", "okind": "regextype",
                     "name": *rng.pick(&["emacs", "posix-basic", "posix-extended", "grep", "ed", "sed", "foo", "", "posix", "EMACS", "posix-egrep"])}),
         10 => json!({"k": "prim", "prim": *rng.pick(&["-regex", "-iregex"]), "kind": "test", "okind": "regex",
